@@ -146,7 +146,7 @@ def judgeTgt (fs : List (List Char)) : String :=
                                 some s!"SPEC\tbinary check: imports_not_in_target {r.importsNotInTarget.map String.ofList} but the extra imports are {d2.extraImports.map String.ofList}"
                               else if sortStrs r.missingExports != sortStrs d2.missingExports then
                                 some s!"SPEC\tbinary check: missing_exports {r.missingExports.map String.ofList} but the missing exports are {d2.missingExports.map String.ofList}"
-                              else if sortStrs (r.mismatched.map (·.1)) != sortStrs (d2.mismatchedImports ++ d2.mismatchedExports) then
+                              else if sortStrs (r.mismatched.map (·.1)).eraseDups != sortStrs (d2.mismatchedImports ++ d2.mismatchedExports).eraseDups then
                                 some s!"SPEC\tbinary check: mismatched_types {r.mismatched.map (fun x => String.ofList x.1)} but the mismatches are {(d2.mismatchedImports ++ d2.mismatchedExports).map String.ofList}"
                               else if rv == .ok && !r.isOk then
                                 some "SPEC\ta successful resolution's output is rejected by the binary target check"
@@ -178,9 +178,63 @@ def judgeTgt (fs : List (List Char)) : String :=
     | _, _ => "BAD\ttgt: graph imports"
   | _ => "BAD\ttgt: fields"
 
+/-- parse `ok | none | report …` -/
+def takeReport (btag : List Char) (rest : List (List Char)) : Option (Option Report) :=
+  if btag == "ok".toList then some (some {})
+  else if btag == "none".toList then some none
+  else match rest with
+    | a :: rest =>
+      match takeStrs (natOf a) rest [] with
+      | some (xs, b :: rest) =>
+        match takeStrs (natOf b) rest [] with
+        | some (ys, c :: rest) =>
+          match takeMism (natOf c) rest [] with
+          | some (zs, _) => some (some { importsNotInTarget := xs, missingExports := ys, mismatched := zs })
+          | none => none
+        | _ => none
+      | _ => none
+    | [] => none
+
+/-- `bin <types> <wit world> <component world> <report>`: the stand-alone check alone -/
+def judgeBin (fs : List (List Char)) : String :=
+  match fs with
+  | bt :: ww :: cw :: btag :: rest =>
+    match parseTypes bt, takeReport btag rest with
+    | some t2, some rep =>
+      match t2.worlds[natOf ww]?, t2.worlds[natOf cw]? with
+      | some w2, some c2 =>
+        match worldSig t2 w2, treesOf t2 c2.imports, treesOf t2 c2.exports with
+        | some ws2, some ci, some ce =>
+          let out2 : Sig := { imports := ci, exports := ce }
+          let d2 := diagnoseWith getSpec getSpec out2 ws2
+          match rep with
+          | none => "SPEC\tvalidate_target panicked"
+          | some r =>
+            if sortStrs r.importsNotInTarget != sortStrs d2.extraImports then
+              s!"SPEC\tbinary check: imports_not_in_target {r.importsNotInTarget.map String.ofList} but the extra imports are {d2.extraImports.map String.ofList}"
+            else if sortStrs r.missingExports != sortStrs d2.missingExports then
+              s!"SPEC\tbinary check: missing_exports {r.missingExports.map String.ofList} but the missing exports are {d2.missingExports.map String.ofList}"
+            else if sortStrs (r.mismatched.map (·.1)).eraseDups != sortStrs (d2.mismatchedImports ++ d2.mismatchedExports).eraseDups then
+              s!"SPEC\tbinary check: mismatched_types {r.mismatched.map (fun x => String.ofList x.1)} but the mismatches are {(d2.mismatchedImports ++ d2.mismatchedExports).map String.ofList}"
+            else
+              match binaryValidateTarget t2 (natOf ww) (natOf cw) with
+              | some mr =>
+                let norm (x : Report) : List Str × List Str × List (Str × Bool × String) :=
+                  (sortStrs x.importsNotInTarget, sortStrs x.missingExports,
+                    x.mismatched.mergeSort fun a b => decide (a.1 ≤ b.1))
+                if norm mr != norm r then "MODEL\tbinary check: reports differ" else "ok"
+              | none => "MODEL\tbinary check: model panics"
+        | _, _, _ => "BAD\tbin: collection does not unfold"
+      | _, _ => "BAD\tbin: world ids"
+    | _, _ => "BAD\tbin: fields"
+  | _ => "BAD\tbin: field count"
+
 def judge (fs : List (List Char)) : String :=
   match fs with
-  | k :: rest => if k == "tgt".toList then judgeTgt rest else "BAD\tunknown kind"
+  | k :: rest =>
+    if k == "tgt".toList then judgeTgt rest
+    else if k == "bin".toList then judgeBin rest
+    else "BAD\tunknown kind"
   | [] => "BAD\tempty"
 
 def main : IO Unit := Wac.Proto.run judge
